@@ -63,6 +63,12 @@ CLAIMED = {
    text="Bounded model checking: for symbolic increasing time stamps, coordinates, observable values and window bounds, every path of Data.__init__/set_window/set_global_window exposes exactly the samples the closed-window rule of the statement selects (full axis when the two bounds coincide; an empty selection is rejected with ValueError), with matching grid axes and sizes, and the global window restores the full view; ClimateData phase means and anomalies have zero mean per phase, add back to the (windowed) observable for every cycle length incl. non-dividing ones, and with anomalies=True anomaly() is the windowed observable.",
    note="Bounds: T<=3, N<=2, window sequences <=2 (T=3,N=2 thorough); cycles 1..3 with T<=5 (4, T<=7 thorough). Exact reals; float32 axis storage not modelled. NetCDF loading outside.",
    ref="DESIGN.md §3 C13"),
+ "C12": dict(
+   engine="K+P",
+   technique="bounded symbolic execution of the grid kernels (Cython parse-tree interpreter; exact reals with sin^2+cos^2=1 and an IEEE float32 run with over-approximated arithmetic for the clamp) and proxy-value execution of Grid/GeoGrid/GeoNetwork methods with uninterpreted cos/sin/arccos; z3 (NRA/FP)",
+   text="Bounded model checking of what is decidable: exact symmetry of both distance matrices, the clamped spherical cosine formula with argument exactly 1 on the diagonal, clamp result in [-1,1] for every float32 value the arithmetic can produce, Euclidean distance = closed form (non-negative root of the squared sum), zero diagonal and triangle inequality in exact arithmetic, nearest-node lookup returns a minimiser, rectangular grids enumerate the Cartesian product in the documented order, node weights are cos / cos^2 of the node's own latitude (structural equality of uninterpreted terms) or 1.",
+   note="Bounds: N<=3 (4 thorough) nodes, dim<=2 (3). NOT decided (outside this family): the numerical error bounds 2^-10 rad / 2^-20 relative and the approximate triangle inequality for angles -- they concern rounding of transcendental functions. region_indices outside.",
+   ref="DESIGN.md §3 C12"),
 }
 NA_DEFAULT = "check not built yet in this round (see DESIGN.md §6 for the planned obligation)"
 def main():
